@@ -177,6 +177,11 @@ def _rand_call(rng):
             b = [d, d]                                                    # single diagonal
         c["band"] = b
         c["gap"] = _rand_gap(rng, strict=False)
+        if 0 in c["gap"] and max(n, m) > 5:
+            # a zero gap penalty makes the number of co-optimal tracebacks explode (TLC would have
+            # to enumerate them: minutes for 10 x 10); zero penalties stay on short sequences here
+            # and are enumerated exhaustively up to length 3 in S2
+            c["gap"] = [g or -1 for g in c["gap"]]
         c["local"] = rng.random() < 0.5
         c["maxn"] = rng.choice([1, 2, 1000, 1000])
         if r > 0.95:
